@@ -125,4 +125,13 @@ theorem find?_never {α : Type} (l : List α) : l.find? (fun _ => false) = none 
   | nil => rfl
   | cons a t ih => simp [ih]
 
+theorem stateLookup_no_cache {cfg : Config} {h : Hello} {a : Option SessionState} {st : SessionState}
+    (hl : stateLookup cfg h a none = some st) : a = some st := by
+  unfold stateLookup at hl
+  split at hl
+  · exact hl
+  · split at hl
+    · cases hl
+    · split at hl <;> cases hl
+
 end BfeVerif.C44
